@@ -73,7 +73,9 @@ type rlOp struct {
 	D     int    `json:"d,omitempty"`     // rem: delta; frac: sixteenths of the balance; abs: amount
 	Short bool   `json:"short,omitempty"` // 90 s packet timeout instead of 3 h
 	Bad   bool   `json:"bad,omitempty"`   // (final) receiver is not an address -> error acknowledgement
-	Pick  int    `json:"pick,omitempty"`  // recv / ack / timeout: index into the eligible packets
+	Pick  int    `json:"pick,omitempty"`  // recv / ack / timeout: index into the eligible packets (fallback)
+	Ref   int    `json:"ref,omitempty"`   // recv / ack / timeout: 1-based ordinal of the send op whose packet is meant (0: use Pick)
+	Child bool   `json:"child,omitempty"` // with Ref: the packet forwarded by PFM when that packet was received
 	PS    int    `json:"ps,omitempty"`
 	PR    int    `json:"pr,omitempty"`
 	Dur   int    `json:"dur,omitempty"`
@@ -84,6 +86,7 @@ type rlOp struct {
 type rlCase struct {
 	Mint   [2][2]int64 `json:"mint"`   // [kind][account-1]: native amount minted to accounts 1 and 2 of the home chain
 	Pre    int64       `json:"pre"`    // voucher pre-funding per lane (account 1 of the other chain)
+	Epoch0 int         `json:"epoch0"` // hour-epoch number at the start of the history
 	NoDust bool        `json:"nodust"` // demonstration cases only: no never-returning dust holder
 	Demo   string      `json:"demo,omitempty"`
 	Lims   []rlLimit   `json:"lims"`
@@ -363,7 +366,7 @@ func newRLWorld(outer *testing.T, c rlCase) *rlWorld {
 	for lane := 0; lane < 4; lane++ {
 		k := lane / 2
 		l := rw.links[lane%2]
-		recv := [][2]int64{{1, c.Pre}}
+		recv := [][2]int64{{1, c.Pre}, {2, c.Pre}}
 		if !c.NoDust {
 			recv = append(recv, [2]int64{3, 5})
 		}
@@ -379,6 +382,15 @@ func newRLWorld(outer *testing.T, c rlCase) *rlWorld {
 				vx.Harnessf("pre-funding ack failed: %v", r.Err)
 			}
 		}
+	}
+	// ibctesting starts chains with a zero genesis time, which leaves the module's hour epoch
+	// uninitialised (BeginBlocker then never starts an epoch): install a proper one.
+	for ch := 0; ch < 2; ch++ {
+		ep := ratelimittypes.HourEpoch{EpochNumber: uint64(c.Epoch0), Duration: time.Hour, EpochStartTime: now(w).Truncate(time.Hour), EpochStartHeight: w.Height(ch)}
+		if err := w.App(ch).RateLimitKeeper.SetHourEpoch(w.Ctx(ch), ep); err != nil {
+			vx.Harnessf("SetHourEpoch: %v", err)
+		}
+		w.Block(ch, 1)
 	}
 	m := &rlModel{w: w, paths: map[rlKey]*rlPath{}, pk: map[int]*rlPkt{}, supply: map[rlKey]int64{}}
 	m.wl[0], m.wl[1] = map[string]bool{}, map[string]bool{}
@@ -533,6 +545,22 @@ func runC41(outer *testing.T) func(t rapid.TB, c rlCase, rec *vx.Case) {
 			return
 		}
 		fw := map[int]int{} // forwarded packet idx -> upstream packet idx
+		child := map[int]*sim.Pkt{}
+		var sendPk []*sim.Pkt // per send/fsend op (in order): its packet, nil when rejected
+		choose := func(op rlOp, el []*sim.Pkt) *sim.Pkt {
+			if op.Ref > 0 && op.Ref <= len(sendPk) && sendPk[op.Ref-1] != nil {
+				target := sendPk[op.Ref-1]
+				if op.Child {
+					target = child[target.Idx]
+				}
+				for _, e := range el {
+					if e == target {
+						return e
+					}
+				}
+			}
+			return el[op.Pick%len(el)]
+		}
 		kinds := map[string]bool{}
 		excluded := 0
 
@@ -581,6 +609,7 @@ func runC41(outer *testing.T) func(t rapid.TB, c rlCase, rec *vx.Case) {
 				bal := w.Balance(src, w.Addr(src, op.From), tr.denom()).Amount.Int64()
 				if bal <= 0 {
 					rec.Class("noop-no-balance")
+					sendPk = append(sendPk, nil)
 					continue
 				}
 				// amount placed relative to the model's remaining quota
@@ -594,6 +623,14 @@ func runC41(outer *testing.T) func(t rapid.TB, c rlCase, rec *vx.Case) {
 						amt = p.cv*p.pr/100 - (p.in - p.out) + int64(op.D)
 					} else {
 						amt = bal * 3 / 16
+					}
+				case "remfrac": // a fraction of the remaining quota: accepted by the model
+					if p := m.paths[probe.sendKey]; p != nil {
+						amt = (p.cv*p.ps/100 - (p.out - p.in)) * int64(op.D) / 8
+					} else if p := m.paths[probe.recvKey]; p != nil {
+						amt = (p.cv*p.pr/100 - (p.in - p.out)) * int64(op.D) / 8
+					} else {
+						amt = bal * int64(op.D) / 64
 					}
 				case "frac":
 					amt = bal * int64(op.D) / 16
@@ -624,6 +661,7 @@ func runC41(outer *testing.T) func(t rapid.TB, c rlCase, rec *vx.Case) {
 				allowed := m.wouldAllow(probe, true)
 				p, res := sendTransfer(w, l, src, op.From, sdk.NewCoin(tr.denom(), sdkmath.NewInt(amt)), receiver, uint64(to.UnixNano()), memo)
 				m.syncEpoch(src)
+				sendPk = append(sendPk, p)
 				if p == nil {
 					m.rejected++
 					rec.Class("send-rejected")
@@ -643,7 +681,7 @@ func runC41(outer *testing.T) func(t rapid.TB, c rlCase, rec *vx.Case) {
 					rec.Class("noop-nothing-to-recv")
 					continue
 				}
-				p := el[op.Pick%len(el)]
+				p := choose(op, el)
 				q := m.register(p)
 				allowed := m.wouldAllow(q, false)
 				before := noteAcked()
@@ -663,6 +701,7 @@ func runC41(outer *testing.T) func(t rapid.TB, c rlCase, rec *vx.Case) {
 					viol = m.count(q, false)
 					for _, f := range sent {
 						fw[f.Idx] = p.Idx
+						child[p.Idx] = f
 						if v := m.count(m.register(f), true); v != nil && viol == nil {
 							viol = v
 						}
@@ -697,7 +736,7 @@ func runC41(outer *testing.T) func(t rapid.TB, c rlCase, rec *vx.Case) {
 					rec.Class("noop-nothing-to-" + op.K)
 					continue
 				}
-				p := el[op.Pick%len(el)]
+				p := choose(op, el)
 				q := m.register(p)
 				fails := op.K == "timeout"
 				if op.K == "ack" {
@@ -828,7 +867,7 @@ func genPct(t *rapid.T, label string) int {
 }
 
 func genC41(t *rapid.T) rlCase {
-	c := rlCase{Pre: rapid.SampledFrom([]int64{3001, 2500, 4099}).Draw(t, "pre")}
+	c := rlCase{Pre: rapid.SampledFrom([]int64{3001, 2500, 4099}).Draw(t, "pre"), Epoch0: rapid.IntRange(0, 5).Draw(t, "epoch0")}
 	for k := 0; k < 2; k++ {
 		for a := 0; a < 2; a++ {
 			c.Mint[k][a] = rapid.SampledFrom([]int64{20000, 19973, 31337, 25001}).Draw(t, "mint")
@@ -855,34 +894,74 @@ func genC41(t *rapid.T) rlCase {
 		}
 		return cl{rapid.IntRange(0, 1).Draw(t, "chain"), rapid.IntRange(0, 3).Draw(t, "lane")}
 	}
-	n := rapid.IntRange(8, 30).Draw(t, "nops")
-	kinds := []string{"send", "send", "send", "send", "send", "send", "fsend", "fsend", "recv", "recv", "recv", "recv", "ack", "ack", "ack",
-		"timeout", "timeout", "epoch", "update", "update", "remove", "add", "add", "reset", "wl", "bl", "block"}
-	for i := 0; i < n; i++ {
+	// transfers with their planned life cycles (each a sequence of ops that must stay in order)
+	var seqs [][]rlOp
+	nt := rapid.IntRange(2, 8).Draw(t, "ntransfers")
+	for i := 1; i <= nt; i++ {
+		op := rlOp{K: "send"}
+		if rapid.IntRange(0, 4).Draw(t, "fwd") == 0 {
+			op.K = "fsend"
+		}
+		h := pickHot()
+		op.Lane = h.lane
+		op.Dir = h.chain // out of the limited chain ...
+		if rapid.IntRange(0, 3).Draw(t, "into") == 0 {
+			op.Dir = 1 - h.chain // ... or into it
+		}
+		op.From = rapid.IntRange(1, 2).Draw(t, "from")
+		op.To = rapid.IntRange(1, 2).Draw(t, "to")
+		op.Mode = rapid.SampledFrom([]string{"remfrac", "remfrac", "remfrac", "rem", "rem", "frac", "abs"}).Draw(t, "mode")
+		switch op.Mode {
+		case "remfrac":
+			op.D = rapid.IntRange(1, 8).Draw(t, "eighths")
+		case "rem":
+			op.D = rapid.IntRange(-2, 2).Draw(t, "delta")
+		case "frac":
+			op.D = rapid.IntRange(1, 6).Draw(t, "num")
+		default:
+			op.D = rapid.IntRange(1, 60).Draw(t, "abs")
+		}
+		seq := []rlOp{op}
+		ref := func(k string, child bool) rlOp {
+			return rlOp{K: k, Ref: i, Child: child, Pick: rapid.IntRange(0, 7).Draw(t, "pick")}
+		}
+		if op.K == "send" {
+			switch rapid.SampledFrom([]string{"timeout", "timeout", "errack", "errack", "ok", "ok", "recvonly", "none"}).Draw(t, "fate") {
+			case "timeout":
+				seq[0].Short = true
+				seq = append(seq, ref("timeout", false))
+			case "errack":
+				seq[0].Bad = true
+				seq = append(seq, ref("recv", false), ref("ack", false))
+			case "ok":
+				seq = append(seq, ref("recv", false), ref("ack", false))
+			case "recvonly":
+				seq = append(seq, ref("recv", false))
+			}
+		} else {
+			switch rapid.SampledFrom([]string{"badfinal", "badfinal", "childtimeout", "ok", "timeout", "recvonly"}).Draw(t, "ffate") {
+			case "badfinal":
+				seq[0].Bad = true
+				seq = append(seq, ref("recv", false), ref("recv", true), ref("ack", true), ref("ack", false))
+			case "ok":
+				seq = append(seq, ref("recv", false), ref("recv", true), ref("ack", true), ref("ack", false))
+			case "childtimeout":
+				seq = append(seq, ref("recv", false), ref("timeout", true), ref("ack", false))
+			case "timeout":
+				seq[0].Short = true
+				seq = append(seq, ref("timeout", false))
+			case "recvonly":
+				seq = append(seq, ref("recv", false))
+			}
+		}
+		seqs = append(seqs, seq)
+	}
+	// administration, epochs and free relay ops: singletons
+	na := rapid.IntRange(2, 9).Draw(t, "nadmin")
+	kinds := []string{"epoch", "epoch", "update", "update", "update", "remove", "add", "add", "reset", "reset", "wl", "bl", "block", "recv", "ack", "timeout"}
+	for i := 0; i < na; i++ {
 		op := rlOp{K: rapid.SampledFrom(kinds).Draw(t, "kind")}
 		switch op.K {
-		case "send", "fsend":
-			h := pickHot()
-			op.Lane = h.lane
-			// direction: out of the limited chain or into it
-			if rapid.IntRange(0, 2).Draw(t, "out") > 0 {
-				op.Dir = h.chain
-			} else {
-				op.Dir = 1 - h.chain
-			}
-			op.From = rapid.IntRange(1, 2).Draw(t, "from")
-			op.To = rapid.IntRange(1, 2).Draw(t, "to")
-			op.Mode = rapid.SampledFrom([]string{"rem", "rem", "rem", "frac", "frac", "abs"}).Draw(t, "mode")
-			switch op.Mode {
-			case "rem":
-				op.D = rapid.IntRange(-2, 2).Draw(t, "delta")
-			case "frac":
-				op.D = rapid.IntRange(1, 6).Draw(t, "num")
-			default:
-				op.D = rapid.IntRange(1, 60).Draw(t, "abs")
-			}
-			op.Short = rapid.IntRange(0, 2).Draw(t, "short") > 0
-			op.Bad = rapid.IntRange(0, 4).Draw(t, "bad") == 0
 		case "recv", "ack", "timeout":
 			op.Pick = rapid.IntRange(0, 7).Draw(t, "pick")
 		case "epoch":
@@ -907,7 +986,25 @@ func genC41(t *rapid.T) rlCase {
 			op.Chain, op.Lane = h.chain, h.lane
 			op.On = rapid.IntRange(0, 1).Draw(t, "on") > 0
 		}
-		c.Ops = append(c.Ops, op)
+		seqs = append(seqs, []rlOp{op})
+		if op.K == "remove" && rapid.Bool().Draw(t, "readd") {
+			seqs[len(seqs)-1] = append(seqs[len(seqs)-1], rlOp{K: "add", Chain: op.Chain, Lane: op.Lane, PS: genPct(t, "ps"), PR: genPct(t, "pr"), Dur: rapid.IntRange(1, 3).Draw(t, "dur")})
+		}
+	}
+	// random order-preserving merge
+	for {
+		var live []int
+		for i, s := range seqs {
+			if len(s) > 0 {
+				live = append(live, i)
+			}
+		}
+		if len(live) == 0 {
+			break
+		}
+		i := live[rapid.IntRange(0, len(live)-1).Draw(t, "merge")]
+		c.Ops = append(c.Ops, seqs[i][0])
+		seqs[i] = seqs[i][1:]
 	}
 	return c
 }
@@ -916,7 +1013,7 @@ func TestC41(t *testing.T) {
 	vx.Check(t, vx.Prop[rlCase]{
 		ID: c41,
 		Rule: "2 chains, 2 ICS-20 v1 channels, tokens ufoo (native to chain 0) and ubar (native to chain 1) on 4 lanes; 1-2 rate limits (quota 1-100 %, 1-3 h) on (chain, lane) paths; " +
-			"8-30 ops: transfers sized around the model's remaining quota, PFM round-trip forwards (async acks), recv / ack / timeout relays, hour-epoch jumps, add/update/remove/reset by the authority, whitelist and blacklist toggles; " +
+			"2-8 transfers with planned life cycles (timeout / error ack / success / left pending; PFM round-trip forwards with asynchronous acks) sized around the model's remaining quota, merged in random order with 2-9 hour-epoch jumps, add/update/remove/reset by the authority, whitelist and blacklist toggles and free relay ops; " +
 			"non-trivial = a packet counted in one window was refunded (timeout / error ack) after that window ended by an epoch or authority reset, update or removal, with >= 2 transfers counted; distinct by full history",
 		MinNTFrac: 0.12,
 		Assumptions: []string{
